@@ -267,3 +267,62 @@ func IsEmptyDeep(v any) bool {
 	}
 	return false
 }
+
+// Respell renders the same JSON value with other bytes: white space and line breaks between all tokens, object members in reverse key
+// order, the first character of every string and key (and every '/') written as an escape. A decoder that looks at raw bytes instead of
+// decoded values shows here.
+func Respell(v any) string {
+	var sb strings.Builder
+	var str func(s string)
+	str = func(s string) {
+		sb.WriteByte('"')
+		first := true
+		for _, r := range s {
+			switch {
+			case first && r < 0x10000 && r != 0xFFFD:
+				fmt.Fprintf(&sb, "\\u%04x", r)
+			case r == '/':
+				sb.WriteString("\\/")
+			default:
+				q := Text(string(r))
+				sb.WriteString(q[1 : len(q)-1])
+			}
+			first = false
+		}
+		sb.WriteByte('"')
+	}
+	var rec func(v any, ind string)
+	rec = func(v any, ind string) {
+		switch x := v.(type) {
+		case map[string]any:
+			ks := Keys(x)
+			sb.WriteString("{\n")
+			for i := len(ks) - 1; i >= 0; i-- {
+				sb.WriteString(ind + "  ")
+				str(ks[i])
+				sb.WriteString(" :\t")
+				rec(x[ks[i]], ind+"  ")
+				if i > 0 {
+					sb.WriteString(" ,")
+				}
+				sb.WriteString("\n")
+			}
+			sb.WriteString(ind + "}")
+		case []any:
+			sb.WriteString("[ ")
+			for i, e := range x {
+				if i > 0 {
+					sb.WriteString(" ,\n" + ind + "  ")
+				}
+				rec(e, ind+"  ")
+			}
+			sb.WriteString(" ]")
+		case string:
+			str(x)
+		default:
+			sb.WriteString(Text(v))
+		}
+	}
+	rec(v, "")
+	return " " + sb.String() + "\n"
+}
